@@ -335,3 +335,7 @@ func Bool(b bool) string {
 	}
 	return "false"
 }
+
+func Int(n int) string { return strconv.Itoa(n) }
+
+func U64(n uint64) string { return strconv.FormatUint(n, 10) }
